@@ -209,6 +209,7 @@ if P:
         f.write(LIB2)
     L = P['L']
     K = len(LEXEMES)
+    KSEQ = P.get('kseq', K)     # statement kinds used in sequences of two or more
     BITS = ['imp_args', 'imp_expr', 'imp_terms', 'alias', 'override', 'extend', 'local_helper']
     KAT = P.get('kat', False)
     PAIRMODE = P.get('pairmode')       # None: PAIR not imported; 0: imported; 1: + %extend LETTER; 2: + %override LETTER
@@ -243,7 +244,7 @@ def _norm(t):
 
 def _body(rec, ci, cs):
     ci = hs.sel(ci, 2 ** len(BITS))
-    idx = [hs.sel(x, K) for x in cs]
+    idx = [hs.sel(x, K if len(cs) <= 1 else KSEQ) for x in cs]
     text = ' '.join(LEXEMES[i] for i in idx)
     with hs.untraced():
         # realised: grammar text cannot be symbolic through lark's own grammar lexer; the solver owns the enumeration of programs
@@ -282,8 +283,16 @@ def plan(tier, seed):
         if parser == 'earley' and quick:
             continue
         for pc in range(8):
-            slices.append({'id': '%s:imports%d:L%d' % (parser, pc, L), 'mode': 'realised', 'params': {'L': L, 'cfg': pc, 'parser': parser}, 'timeout': 600 if quick else 3000,
+            slices.append({'id': '%s:imports%d:L%d' % (parser, pc, L), 'mode': 'realised', 'params': {'L': L, 'cfg': pc, 'parser': parser, 'kseq': 10 if quick else 19}, 'timeout': 600 if quick else 3000,
                            'twin': pc == 0, 'bound': {'programs': 16, 'statements': L, 'kinds': len(LEXEMES)}})
+        # the same programs with keep_all_tokens on, and with a terminal-built-from-a-terminal imported / extended / overridden
+        for pc in range(8):
+            slices.append({'id': '%s:imports%d:kat:L1' % (parser, pc), 'mode': 'realised', 'params': {'L': 1, 'cfg': pc, 'parser': parser, 'kat': True},
+                           'timeout': 600 if quick else 3000, 'twin': False, 'bound': {'programs': 16, 'statements': 1, 'keep_all_tokens': True}})
+        for pm in (0, 1, 2):
+            slices.append({'id': '%s:pair-mode%d:L1' % (parser, pm), 'mode': 'realised', 'params': {'L': 1, 'cfg': None, 'parser': parser, 'pairmode': pm},
+                           'timeout': 600 if quick else 3000, 'twin': False,
+                           'bound': {'programs': 128, 'statements': 1, 'terminal_dependency': ['imported', '%extend', '%override'][pm]}})
     meta = {
         'rule': 'one path per (module-set choice vector, lexeme sequence); non-trivial = accepted input',
         'technique': 'CrossHair solver-closed enumeration (realised) of module-set programs and inputs; a textual inliner implementing the documented renaming rule is the reference',
